@@ -448,6 +448,7 @@ def _o_offcurve(w):
     ec = curve_of_token(w["curve"])
     Q = tuple(w["Q"])
     outs = []
+    C.set_libsecp256k1_serving(serving=bool(w.get("serving", False)))
     for name, fn in (("mult", lambda: C.mult(3, Q, ec)), ("dmult", lambda: C.double_mult_var(1, ec.G, 2, Q, ec)),
                      ("mmult", lambda: C.multi_mult_var([1, 2], [ec.G, Q], ec)),
                      ("sum", lambda: C._sum_var([ec.G, Q], ec)), ("tweak", lambda: C._tweak_add_var(Q, 5, ec)),
@@ -458,7 +459,8 @@ def _o_offcurve(w):
         except Exception as e:  # noqa: BLE001
             if common.err_class(e) != "value":
                 outs.append(name + ":" + type(e).__name__)
-    return not outs, f"off-curve {Q} on {w['curve']}: {outs}"
+    C.set_libsecp256k1_serving(serving=False)
+    return not outs, f"off-curve {Q} on {w['curve']} serving={w.get('serving')}: {outs}"
 
 
 def _o_sod(w):
@@ -855,6 +857,7 @@ def _run_entry(ctx, rng, pub):
         pts = [ec.aff_from_jac_var(CG._mult_jac_var(k, ec.GJ, ec)) for k in range(n)]
         allpts = [P for P in toy_points(p, a, b) if P[1]]
         off = [(x, y) for x in range(p) for y in range(1, p) if (x, y) not in allpts][:3] + [(0, p), (1, -1)]
+        off += [(pts[1][0] + p, pts[1][1]), (pts[1][0] - p, pts[1][1])]  # x outside 0..p-1 (congruent to a point)
         for m in range(-2 * n, 3 * n + 1):
             Q = pts[m % n]
             lam = 1 + (m % (p - 1))
@@ -870,7 +873,8 @@ def _run_entry(ctx, rng, pub):
             lines.append(f"curve.tweak {tok} 1 {atok(Q)} 2")
             lines.append(f"curve.prepared {tok} 1 2 {atok(Q)}")
             if 0 < Q[1] < p:
-                ctx.check("offcurve.refused", {"curve": tok, "Q": list(Q)})
+                ctx.check("offcurve.refused", {"curve": tok, "Q": list(Q)},
+                          key="curve.x_out_of_range" if not 0 <= Q[0] < p else None)
         for _ in range(20):
             u, v = rng.randrange(-n, 2 * n), rng.randrange(-n, 2 * n)
             H, Q = rng.choice(pts), rng.choice(pts)
@@ -921,6 +925,14 @@ def _run_entry(ctx, rng, pub):
         lines.append(f"curve.tweak secp256k1 1 {atok(rng.choice([P, INF, ec.negate(ec.G)]))} {rng.choice([m, 1, 0, ec.n - 1])}")
         lines.append(f"curve.sum secp256k1 {atok(P)},{atok(Q)},{atok(ec.negate(P))}")
         lines.append(f"curve.prepared secp256k1 1 {m} {atok(P)}")
+    for sv in (False, True) if C._bindings_installed else (False,):  # x outside 0..p-1: refused by both backends
+        P = _rand_point(rng, ec)
+        for Q in ((P[0] + ec.p, P[1]), (P[0] - ec.p, P[1]), (ec.G[0] + ec.p, ec.G[1])):
+            ctx.check("offcurve.refused", {"curve": "secp256k1", "Q": list(Q), "serving": sv},
+                      key="curve.x_out_of_range_backend_divergence")
+            if not sv:
+                lines.append(f"curve.mult secp256k1 1 7 {atok(Q)}")
+                lines.append(f"curve.dmult secp256k1 2 {atok(ec.G)} 3 {atok(Q)}")
     for tok, ss, aff in pub:
         if tok == "secp256k1":
             lines.append(f"curve.mmult secp256k1 {ltok(ss)} {ltok(aff, atok)}")
@@ -1074,7 +1086,8 @@ def _run_constructors(ctx, rng):
             continue
         tc = toy_curve(p, a, b)
         pts = [P for P in tc["points"] if P[1]]
-        cand_G = rng.sample(pts, min(3, len(pts))) + [(0, 0), (1, p), (pts[0][0], (pts[0][1] + 1) % p) if pts else (1, 1)]
+        cand_G = rng.sample(pts, min(3, len(pts))) + [(pts[0][0] + p, pts[0][1]), (pts[0][0] - p, 0)] if pts else []
+        cand_G += [(0, 0), (1, p), (pts[0][0], (pts[0][1] + 1) % p) if pts else (1, 1)]
         for G in cand_G:
             for n in sorted({tc["order"], *[s[0] for s in tc["subs"]], p, 4, 9, 2}):
                 for h in {1, 2, max(1, tc["order"] // n), (1 + isqrt(4 * p) + p) // n if n else 1}:
